@@ -312,6 +312,7 @@ func vpPromiseHist(K int) {
 	penal := [2]int{}
 	for k := 0; k < K; k++ {
 		op, mi, pi, dt := vpInt("op", 0, 6), vpInt("msg", 0, 1), vpInt("peer", 0, 1), vpInt("dt", 0, 2)
+		rr := vpInt("reject_reason", 0, 8)
 		switch op {
 		case 0:
 			gt.AddPromise(peers[pi], []string{ids[mi]})
@@ -326,11 +327,16 @@ func vpPromiseHist(K int) {
 			case 2:
 				gt.ValidateMessage(msgs[mi])
 			case 3:
-				gt.RejectMessage(msgs[mi], RejectValidationFailed)
+				// a copy arrived and was turned down for a reason that has nothing to do with a forged signature - also when
+				// OUR side dropped it (validation queue full, throttled): the peer kept its promise
+				arrived := []string{RejectValidationFailed, RejectValidationIgnored, RejectValidationQueueFull, RejectValidationThrottled,
+					RejectBlacklstedPeer, RejectBlacklistedSource, RejectUnexpectedSignature, RejectUnexpectedAuthInfo, RejectSelfOrigin}
+				gt.RejectMessage(msgs[mi], arrived[rr])
 			}
 			has[mi] = [2]bool{} // the message arrived, from anyone: every promise for it is void
 		case 4:
-			gt.RejectMessage(msgs[mi], RejectInvalidSignature) // an obviously invalid copy fulfils nothing
+			// an obviously invalid copy (signature missing or wrong) fulfils nothing
+			gt.RejectMessage(msgs[mi], []string{RejectInvalidSignature, RejectMissingSignature}[rr%2])
 		case 5:
 			vpAdvance([]time.Duration{time.Second, 3 * time.Second, 4 * time.Second}[dt])
 		case 6:
